@@ -277,7 +277,7 @@ PyArrayObject* make_edges(const PyArrayObject* idx,
 	/* Since PyArray_DATA() is a simple accessor, it is OK to cast away
 	 * const as long as we treat the result as const.
          */
-	buf_idx = PyArray_DATA((PyArrayObject*) idx) + pos;
+	buf_idx = (const npy_intp*)PyArray_DATA((PyArrayObject*) idx) + pos;
 	if (*buf_idx < 0)
 	  continue;
 	buf_edges[0] = idx_i;
